@@ -258,6 +258,17 @@ def check_guards(ctx, wm: WeaverModel):
     rs = [e for e in mf.raises if e.data.get('exc') == 'ValueError' and any(data_dependent(g) for g in e.guard)]
     ctx.check(len(rs) >= 2, 'C20.1', 'slicing value that is not a sample: slice_by_value raises ValueError on a data-dependent "not found" test (start and stop)',
               f"{[[str(g)[:80] for g in e.guard] for e in mf.raises]}", mf.fi.loc(), mf.fi.qualname, 'notfound')
+    # the look-up is made for every given bound: beyond the "not found" test itself, the rejection may depend on nothing but the bound being given
+    # (the model passes numbers for start / stop, so `is None` tests are settled); `if start:` skips the look-up of the sample at 0
+    narrowed = []
+    for e in rs:
+        for g in e.guard:
+            if data_dependent(g):
+                continue
+            if any(sym.ATOMS.head(a_) == 'sym' and str(sym.ATOMS.args(a_)[0]).startswith('arg:') for r_ in g.rats() for a_ in sym.all_atoms(r_)):
+                narrowed.append(f"{str(g)[:80]} (raise at {e.loc()})")
+    ctx.check(not narrowed, 'C20.1', 'slicing value that is not a sample: the rejection of an absent value does not depend on the value itself (0 is a value like any other)',
+              f"the look-up and its ValueError happen only when {narrowed[:3]}", mf.fi.loc(), mf.fi.qualname, 'notfound-any-value')
     bad = [e for e in mf.raises if e.data.get('exc') != 'ValueError']
     ctx.check(not bad, 'C20.4', 'slice_by_value: every explicit rejection is a ValueError', f"{[(e.data.get('exc'), e.loc()) for e in bad]}", mf.fi.loc(),
               mf.fi.qualname, 'slice-type')
